@@ -146,16 +146,17 @@ package reflect
 
 //@ axiom wfT_K: forall t *tType :: {wfT(t), t.K} wfT(t) && t.T == tMAP ==> t.K != nil && wfT(t.K) && (t.K.IsPointer ==> t.K.T == tSTRUCT) && t.K.Tag != defs.T_binary && t.K.T != tMAP && t.K.T != tLIST && t.K.T != tSET
 
-//@ axiom wfT_Sd: forall t *tType :: {wfT(t), t.Sd} wfT(t) && t.T == tSTRUCT ==> t.Sd != nil && wfSD(t.Sd)
+//@ axiom wfT_Sd: forall t *tType :: {wfT(t), t.Sd} wfT(t) && t.T == tSTRUCT ==> t.Sd != nil && wfSD(t.Sd) && sdSize(t.Sd) == slotSize(t)
 
 //@ axiom wfSD_base: forall sd *structDesc :: {wfSD(sd)} wfSD(sd) ==> sd != nil && len(sd.fieldIdx) == sd.maxID + 1 && sd.rt != nil && rtKind(sd.rt) == reflect.Struct
 //@     && (sd.hasInitFunc ==> sd.initFunc != nil) && sd.unknownFieldsOffset <= MAXELEM
+//@     && 0 <= sdSize(sd) && sdSize(sd) <= MAXELEM && (sd.hasUnknownFields ==> sd.unknownFieldsOffset + 24 <= sdSize(sd))
 
 //@ axiom wfSD_idx: forall sd *structDesc, k int :: {wfSD(sd), sd.fieldIdx[k]} wfSD(sd) && 0 <= k && k < len(sd.fieldIdx)
 //@     ==> -1 <= sd.fieldIdx[k] && sd.fieldIdx[k] < len(sd.fields) && (sd.fieldIdx[k] >= 0 ==> sd.fields[sd.fieldIdx[k]].ID == k)
 
 //@ axiom wfSD_fields: forall sd *structDesc, i int :: {wfSD(sd), sd.fields[i]} wfSD(sd) && 0 <= i && i < len(sd.fields)
-//@     ==> sd.fields[i] != nil && wfF(sd.fields[i])
+//@     ==> sd.fields[i] != nil && wfF(sd.fields[i]) && sd.fields[i].Offset + sd.fields[i].Type.Size <= sdSize(sd)
 
 //@ axiom wfSD_req: forall sd *structDesc, i int :: {wfSD(sd), sd.requiredFieldIDs[i]} wfSD(sd) && 0 <= i && i < len(sd.requiredFieldIDs)
 //@     ==> sd.requiredFieldIDs[i] <= sd.maxID && sd.fieldIdx[sd.requiredFieldIDs[i]] >= 0
@@ -226,6 +227,18 @@ package reflect
 //@   modifies nothing
 
 // ---------------------------------------------------------------------------
+// memory regions of a decode (C06, C16)
+//
+// destOK(d, p, n): [p, p+n) is memory the decoder may write a value into: it lies below the
+// allocation watermark (it exists) and outside the free part of d's bump block (no later
+// span allocation can overlap it). Stable under every allocation (watermark and bump pointer
+// only move up, a replaced block is fresh).
+//@ spec uf func sdSize(sd *structDesc) Int
+//@ spec func slotSize(t *tType) Int = t.IsPointer ? t.V.Size : t.Size
+//@ spec func destOK(d *tDecoder, p Int, n Int) bool = p + n <= $brk && (p + n <= d.s.b + d.s.p || d.s.b + d.s.n <= p)
+//@ macro spanmono = old($brk) <= $brk && (d.s.b == old(d.s.b) ==> d.s.p >= old(d.s.p) && d.s.n == old(d.s.n)) && (d.s.b != old(d.s.b) ==> old($brk) <= d.s.b)
+
+// ---------------------------------------------------------------------------
 // decoder.go : allocator front end
 
 // layout overlays that are only ever placed over raw memory
@@ -242,9 +255,16 @@ package reflect
 //@   ensures gc: (n > defaultDecoderMemSize/8 || abiType != 0) ==> old($brk) <= ret && ret + n <= $brk && d.s.p == old(d.s.p) && d.s.b == old(d.s.b) && d.s.n == old(d.s.n)
 //@   ensures span: !(n > defaultDecoderMemSize/8 || abiType != 0) ==> ret % align == 0 && d.s.b <= ret && ret + n <= d.s.b + d.s.p
 //@       && (d.s.b == old(d.s.b) ==> old(d.s.b) + old(d.s.p) <= ret) && (d.s.b != old(d.s.b) ==> old($brk) <= d.s.b)
+//@   ensures c06_aligned: ret % align == 0
+//@   ensures c06_owned: destOK(d, ret, n) && (old($brk) <= ret || (d.s.b == old(d.s.b) && old(d.s.b) + old(d.s.p) <= ret && ret + n <= d.s.b + d.s.p))
+//@   ensures c06_mono: $(spanmono)
 
 //@ func (d *tDecoder) mallocIfPointer(t *tType, p unsafe.Pointer) (ret unsafe.Pointer)
 //@   requires d != nil && spanInv(&d.s) && wfT(t) && p != nil
+//@   requires c06_dest: destOK(d, p, t.Size)
+//@   ensures c06_dest: destOK(d, ret, slotSize(t))
+//@   ensures c06_ptr: t.IsPointer ==> ret % t.V.Align == 0 && (old($brk) <= ret || (d.s.b == old(d.s.b) && old(d.s.b) + old(d.s.p) <= ret && ret + t.V.Size <= d.s.b + d.s.p))
+//@   ensures c06_mono: $(spanmono)
 //@   modifies fields(&d.s), $brk, M[p : p+8]
 //@   ensures spanInv(&d.s) && old($brk) <= $brk && ret != nil
 //@   ensures !t.IsPointer ==> ret == p && M == old(M)
@@ -253,9 +273,11 @@ package reflect
 // ---------------------------------------------------------------------------
 // decoder.go : leaves
 
+// bytes a fixed-size value occupies in memory (enum: int64)
+//@ spec func storeSize(t Int) Int = (t == tBOOL || t == tBYTE) ? 1 : (t == tI16 ? 2 : (t == tI32 ? 4 : 8))
 //@ func decodeFixedSizeTypes(t ttype, b []byte, p unsafe.Pointer) (n int)
 //@   requires p != nil && typeToSize[t] > 0 && len(b) >= typeToSize[t]
-//@   modifies M[p : p+8]
+//@   modifies M[p : p + storeSize(t)]
 //@   ensures n == typeToSize[t]
 
 // isBin(t): the Go slot is a []byte (24-byte header), directly or behind an optional pointer
@@ -274,7 +296,7 @@ package reflect
 //@   requires c14_dispatch: nc
 //@   requires wfT(t) && t.WT == tSTRING && p != nil
 //@   requires c14_region: len(b) > 0 ==> b.ptr >= 65536
-//@   modifies M[p : p+24]
+//@   modifies M[p : p + (isBin(t) ? 24 : 16)]
 //@   ensures 0 <= i && i <= len(b)
 //@   ensures c14_short: len(b) < 4 ==> i == 0 && err == io.ErrShortBuffer && M == old(M)
 //@   ensures c14_neg: len(b) >= 4 && old(strLen(M, b.ptr)) < 0 ==> err != nil && M == old(M)
@@ -298,6 +320,9 @@ package reflect
 //@ const ghost $skoff = (Array Int Int)
 //@ const ghost $sksz = (Array Int Int)
 //@ const ghost $cptr = Int
+//@ const ghost $k0 = Int
+//@ const ghost $v0 = Int
+//@ const ghost $e0 = Int
 
 // ufsIs(p): the index held by p is exactly the ghost list of skipped occurrences
 //@ spec func ufsIs(p *unknownFields, n Int, offs Mem, szs Mem) bool = len(p.offs) == n
@@ -323,7 +348,7 @@ package reflect
 //@   after Skip ghost $skoff = (res_err == nil ? store($skoff, $skn, i - 3) : $skoff)
 //@   after Skip ghost $sksz = (res_err == nil ? store($sksz, $skn, res_n + 3) : $sksz)
 //@   after Skip ghost $skn = (res_err == nil ? $skn + 1 : $skn)
-//@   modifies M, fields(&d.s), $brk
+//@   modifies M[base : base + sdSize(sd)], M[d.s.b + d.s.p : d.s.b + d.s.n], fields(&d.s), $brk
 //@   ensures 0 <= n && n <= len(b)
 //@   ensures spanInv(&d.s) && old($brk) <= $brk
 //@   ensures maxdepth == 0 ==> err != nil && n == 0
@@ -335,6 +360,10 @@ package reflect
 //@   after Copy ghost $cptr = res_r.ptr
 //@   requires c11_inbelow: b.ptr + len(b) <= $brk
 //@   requires c14_region: len(b) > 0 ==> b.ptr >= 65536
+//@   requires c06_dest: destOK(d, base, sdSize(sd))
+//@   ensures c06_mono: $(spanmono)
+//@   ensures c16_input: (old(destOK(d, b.ptr, len(b))) && (b.ptr + len(b) <= base || base + sdSize(sd) <= b.ptr)) ==> forall a Int :: {M[a]} b.ptr <= a && a < b.ptr + len(b) ==> M[a] == old(M[a])
+//@   loop 1 invariant c06_dest: destOK(d, base, sdSize(sd)) && (d.s.b == old(d.s.b) ==> d.s.p >= old(d.s.p) && d.s.n == old(d.s.n)) && (d.s.b != old(d.s.b) ==> old($brk) <= d.s.b)
 //@   ensures c11_hdr_ptr: err == nil && sd.hasUnknownFields && $skn > 0 ==> old($brk) <= $cptr && ld64(base + sd.unknownFieldsOffset) == $cptr
 //@   ensures c11_hdr_len: err == nil && sd.hasUnknownFields && $skn > 0 ==> ld64(base + sd.unknownFieldsOffset + 8) == sumsz2($sksz, $skn) && ld64(base + sd.unknownFieldsOffset + 16) == sumsz2($sksz, $skn)
 //@   ensures c11_noholder: err == nil && (!sd.hasUnknownFields || $skn == 0) ==> $cptr == 0
@@ -362,6 +391,10 @@ package reflect
 //@   requires c14_dispatch: !nc
 //@   requires c11_inbelow: b.ptr + len(b) <= $brk
 //@   requires c14_region: len(b) > 0 ==> b.ptr >= 65536
+//@   requires c06_dest: destOK(d, p, slotSize(t))
+//@   ensures c06_mono: $(spanmono)
+//@   ensures c06_list: err == nil && (t.T == tLIST || t.T == tSET) && maxdepth != 0 ==> ld64(p+8) == ld64(p+16) && 0 <= sgn64(ld64(p+8)) && ld64(p) != 0
+//@        && (ld64(p+8) != 0 ==> old($brk) <= ld64(p) || (old(d.s.b) + old(d.s.p) <= ld64(p) && ld64(p) <= old(d.s.b) + old(d.s.n)))
 //@   ensures c06_str0: err == nil && t.T == tSTRING && maxdepth != 0 && old(strLen(M, b.ptr)) == 0 ==> n == 4 && ld64(p+8) == 0
 //@        && (isBin(t) ==> ld64(p) == zerobase() && ld64(p+16) == 0) && (!isBin(t) ==> ld64(p) == 0)
 //@   ensures c06_str: err == nil && t.T == tSTRING && maxdepth != 0 && old(strLen(M, b.ptr)) > 0 ==> n == 4 + old(strLen(M, b.ptr))
@@ -378,13 +411,32 @@ package reflect
 //@   call Decode ghost lvl = lvl
 //@   ensures c15_zero: maxdepth == 0 ==> err == box(errDepthLimitExceeded, "*thrift.ProtocolException")
 //@   ensures c15_accept48: lvl <= 48 ==> maxdepth > 0
-//@   modifies M, fields(&d.s), $brk
+//@   modifies M[p : p + slotSize(t)], M[d.s.b + d.s.p : d.s.b + d.s.n], fields(&d.s), $brk
+//@   call InitDefault ghost dp = p
+//@   call InitDefault ghost sz = slotSize(t)
 //@   ensures 0 <= n && n <= len(b)
 //@   ensures spanInv(&d.s) && old($brk) <= $brk
 //@   ensures maxdepth == 0 ==> err != nil && n == 0
+//@   entry ghost $k0 = 0
+//@   entry ghost $v0 = 0
+//@   entry ghost $e0 = 0
+//@   after Malloc#1 ghost $k0 = res_ret
+//@   after Malloc#2 ghost $v0 = res_ret
+//@   after Malloc#4 ghost $e0 = res_ret
+//@   loop 0 invariant c06_mono: (d.s.b == old(d.s.b) ==> d.s.p >= old(d.s.p) && d.s.n == old(d.s.n)) && (d.s.b != old(d.s.b) ==> old($brk) <= d.s.b)
+//@   loop 0 invariant c06_tmp: destOK(d, kp, kt.Size) && destOK(d, vp, vt.Size)
+//@   loop 0 invariant c06_keys: kt.IsPointer && l > 0 ==> destOK(d, $k0, l * kt.V.Size) && (j == 0 ==> sliceK == $k0) && (j > 0 ==> sliceK == $k0 + (j - 1) * kt.V.Size)
+//@   loop 0 invariant c06_vals: vt.IsPointer && l > 0 ==> destOK(d, $v0, l * vt.V.Size) && (j == 0 ==> sliceV == $v0) && (j > 0 ==> sliceV == $v0 + (j - 1) * vt.V.Size)
 //@   loop 0 invariant 0 <= j && j <= l && 6 <= i && i <= len(b) && spanInv(&d.s) && old($brk) <= $brk
 //@   loop 0 invariant (kt.IsPointer && l > 0 ==> sliceK != nil) && (vt.IsPointer && l > 0 ==> sliceV != nil)
 //@   loop 0 decreases l - j
+//@   loop 1 invariant c06_mono: (d.s.b == old(d.s.b) ==> d.s.p >= old(d.s.p) && d.s.n == old(d.s.n)) && (d.s.b != old(d.s.b) ==> old($brk) <= d.s.b)
+//@   loop 1 invariant c06_hdr: destOK(d, old(p), 24) && ld64(old(p)) == x && ld64(old(p) + 8) == l && ld64(old(p) + 16) == l && 0 < l
+//@   loop 1 invariant c06_fresh: old($brk) <= x || (old(d.s.b) + old(d.s.p) <= x && x + l * et.Size <= old(d.s.b) + old(d.s.n))
+//@   loop 1 hint c06_hdrbytes: forall a Int :: {M[a]} old(p) <= a && a < old(p) + 24 ==> M[a] == sel(head(M), a)
+//@   loop 1 invariant c06_disj: (x + l * et.Size <= old(p) || old(p) + 24 <= x) && (et.IsPointer ==> $e0 + l * et.V.Size <= old(p) || old(p) + 24 <= $e0)
+//@   loop 1 invariant c06_arr: destOK(d, x, l * et.Size) && (j == 0 ==> p == x) && (j > 0 ==> p == x + (j - 1) * et.Size)
+//@   loop 1 invariant c06_ptrs: et.IsPointer ==> destOK(d, $e0, l * et.V.Size) && (j == 0 ==> sliceData == $e0) && (j > 0 ==> sliceData == $e0 + (j - 1) * et.V.Size)
 //@   loop 1 invariant 0 <= j && j <= l && 5 <= i && i <= len(b) && spanInv(&d.s) && old($brk) <= $brk
 //@   loop 1 invariant p != nil && (et.IsPointer ==> sliceData != nil)
 //@   loop 1 invariant et.FixedSize > 0 ==> i + (l - j) * et.FixedSize <= len(b)
@@ -394,16 +446,31 @@ package reflect
 // reflect.go : API entry points
 
 // Descriptor construction is not yet under contract: assumed to return a well-formed descriptor (A-WF).
+//@ spec uf func rvPointeeSize(v reflect.Value) Int
 //@ trusted func reflect.getOrcreateStructDesc(rv reflect.Value) (sd *structDesc, err error)
-//@   ensures err == nil ==> wfSD(sd)
+//@   ensures err == nil ==> wfSD(sd) && sdSize(sd) == rvPointeeSize(rv)
 //@   ensures err != nil ==> sd == nil
 
 //@ trusted func reflect.panicIfHackErr()
 
+//@ const ghost $sp = Int
+//@ const ghost $sb = Int
+//@ const ghost $norewind = Bool
+//@ spec uf func anyPtr(v any) Int
+//@ spec uf func anySize(v any) Int
 //@ func Decode(b []byte, v any) (n int, err error)
 //@   requires len(b) <= MAXIN && b.ptr + len(b) <= $brk && (len(b) > 0 ==> b.ptr >= 65536)
+//@   requires c16_disjoint: b.ptr + len(b) <= anyPtr(v) || anyPtr(v) + anySize(v) <= b.ptr
+//@   ensures c16_input: forall a Int :: {M[a]} b.ptr <= a && a < b.ptr + len(b) ==> M[a] == old(M[a])
 //@   modifies M, $brk
 //@   call Decode ghost lvl = 1
+//@   entry ghost $sp = 0
+//@   entry ghost $sb = 0
+//@   entry ghost $norewind = true
+//@   after Decode ghost $sp = d.s.p
+//@   after Decode ghost $sb = d.s.b
+//@   after Put ghost $norewind = (d.s.b != $sb || d.s.p >= $sp)
+//@   ensures c06_norewind: $norewind
 //@   ensures 0 <= n && n <= len(b)
 
 // ===========================================================================
@@ -543,6 +610,8 @@ package reflect
 //@   modifies nothing
 //@   ensures c02_value: err == nil && r == W(t, M, p, b)
 //@   loop 0 invariant c02_elems: vp != nil && i <= n && (i == 0 ==> WL(t, M, vp, n, b) == W(old(t), M, p, old(b))) && (i > 0 ==> WL(t, M, vp + t.Size, n - i, b) == W(old(t), M, p, old(b)))
+//@   loop 0 hint c02_step: b == Wslot(t, M, vp, head(b))
+//@   loop 0 hint c02_rest: WL(t, M, vp, n - head(i), head(b)) == W(old(t), M, p, old(b))
 
 //@ func appendList_I16(t *tType, b []byte, p unsafe.Pointer) (r []byte, err error)
 //@   abstract b, r
@@ -550,6 +619,8 @@ package reflect
 //@   modifies nothing
 //@   ensures c02_value: err == nil && r == W(t, M, p, b)
 //@   loop 0 invariant c02_elems: vp != nil && i <= n && (i == 0 ==> WL(t, M, vp, n, b) == W(old(t), M, p, old(b))) && (i > 0 ==> WL(t, M, vp + t.Size, n - i, b) == W(old(t), M, p, old(b)))
+//@   loop 0 hint c02_step: b == Wslot(t, M, vp, head(b))
+//@   loop 0 hint c02_rest: WL(t, M, vp, n - head(i), head(b)) == W(old(t), M, p, old(b))
 
 //@ func appendList_I32(t *tType, b []byte, p unsafe.Pointer) (r []byte, err error)
 //@   abstract b, r
@@ -557,6 +628,8 @@ package reflect
 //@   modifies nothing
 //@   ensures c02_value: err == nil && r == W(t, M, p, b)
 //@   loop 0 invariant c02_elems: vp != nil && i <= n && (i == 0 ==> WL(t, M, vp, n, b) == W(old(t), M, p, old(b))) && (i > 0 ==> WL(t, M, vp + t.Size, n - i, b) == W(old(t), M, p, old(b)))
+//@   loop 0 hint c02_step: b == Wslot(t, M, vp, head(b))
+//@   loop 0 hint c02_rest: WL(t, M, vp, n - head(i), head(b)) == W(old(t), M, p, old(b))
 
 //@ func appendList_I64(t *tType, b []byte, p unsafe.Pointer) (r []byte, err error)
 //@   abstract b, r
@@ -564,6 +637,8 @@ package reflect
 //@   modifies nothing
 //@   ensures c02_value: err == nil && r == W(t, M, p, b)
 //@   loop 0 invariant c02_elems: vp != nil && i <= n && (i == 0 ==> WL(t, M, vp, n, b) == W(old(t), M, p, old(b))) && (i > 0 ==> WL(t, M, vp + t.Size, n - i, b) == W(old(t), M, p, old(b)))
+//@   loop 0 hint c02_step: b == Wslot(t, M, vp, head(b))
+//@   loop 0 hint c02_rest: WL(t, M, vp, n - head(i), head(b)) == W(old(t), M, p, old(b))
 
 //@ func appendList_ENUM(t *tType, b []byte, p unsafe.Pointer) (r []byte, err error)
 //@   abstract b, r
@@ -571,6 +646,8 @@ package reflect
 //@   modifies nothing
 //@   ensures c02_value: err == nil && r == W(t, M, p, b)
 //@   loop 0 invariant c02_elems: vp != nil && i <= n && (i == 0 ==> WL(t, M, vp, n, b) == W(old(t), M, p, old(b))) && (i > 0 ==> WL(t, M, vp + t.Size, n - i, b) == W(old(t), M, p, old(b)))
+//@   loop 0 hint c02_step: b == Wslot(t, M, vp, head(b))
+//@   loop 0 hint c02_rest: WL(t, M, vp, n - head(i), head(b)) == W(old(t), M, p, old(b))
 
 //@ func appendList_STRING(t *tType, b []byte, p unsafe.Pointer) (r []byte, err error)
 //@   abstract b, r
@@ -578,6 +655,8 @@ package reflect
 //@   modifies nothing
 //@   ensures c02_value: err == nil && r == W(t, M, p, b)
 //@   loop 0 invariant c02_elems: vp != nil && i <= n && (i == 0 ==> WL(t, M, vp, n, b) == W(old(t), M, p, old(b))) && (i > 0 ==> WL(t, M, vp + t.Size, n - i, b) == W(old(t), M, p, old(b)))
+//@   loop 0 hint c02_step: b == Wslot(t, M, vp, head(b))
+//@   loop 0 hint c02_rest: WL(t, M, vp, n - head(i), head(b)) == W(old(t), M, p, old(b))
 
 //@ func appendList_Other(t *tType, b []byte, p unsafe.Pointer) (r []byte, err error)
 //@   abstract b, r
@@ -594,6 +673,8 @@ package reflect
 //@   modifies nothing
 //@   ensures c02_value: err == nil ==> r == W(t, M, p, b)
 //@   loop 0 invariant c02_elems: vp != nil && i <= n && (i == 0 ==> WL(t, M, vp, n, b) == W(old(t), M, p, old(b))) && (i > 0 ==> WL(t, M, vp + t.Size, n - i, b) == W(old(t), M, p, old(b)))
+//@   loop 0 hint c02_step: b == Wslot(t, M, vp, head(b))
+//@   loop 0 hint c02_rest: WL(t, M, vp, n - head(i), head(b)) == W(old(t), M, p, old(b))
 
 // --- maps -----------------------------------------------------------------------
 // hack.go iterator (A-HACK, A-RANGE): abstract state of a wrapped reflect.MapIter value
